@@ -638,7 +638,7 @@ func (ex *Exec) applyModifies(st *State, c *Contract, env *Env) {
 		if strings.HasPrefix(it.comp, "*-") {
 			pfx := strings.Split(strings.TrimPrefix(it.comp, "*-"), "|")
 			for _, k := range sortedKeys(ex.V.compSorts) {
-				if k == compAlloc || strings.HasPrefix(k, "LK:") || (strings.HasPrefix(k, "LA:") || strings.HasPrefix(k, "LH:")) || strings.HasPrefix(k, "G:") {
+				if k == compAlloc || strings.HasPrefix(k, "LK:") || (strings.HasPrefix(k, "LA:") || strings.HasPrefix(k, "LH:")) || strings.HasPrefix(k, "G:") || strings.HasPrefix(k, "S:") {
 					continue
 				}
 				skip := false
@@ -918,6 +918,7 @@ func (V *Verifier) verifyFunctionOnce(fn *ssa.Function, lockMode bool) *FnResult
 			sc.assert(not(ex.get(entry, "G:"+g.Name, SBool)))
 		}
 	}
+	ex.initMarks(f, entry)
 	ex.runBody(f, entry, params)
 	if c != nil && f.exit.reach.S != "false" {
 		env := ex.frameEnv(f, f.exit, f.entry)
@@ -935,7 +936,9 @@ func (V *Verifier) verifyFunctionOnce(fn *ssa.Function, lockMode bool) *FnResult
 			o := ex.oblige(f, f.exit, "ensures", trimLabel2(lab), e.Label, fn.Pos(), v.t, "postcondition: "+e.Text)
 			if o != nil {
 				if ce, ok := e.Expr.(*ast.CallExpr); ok {
-					if id, ok := ce.Fun.(*ast.Ident); ok && id.Name == "implies" && len(ce.Args) == 2 {
+					// (an antecedent that reads a mark - "if the code ever gets there in that state" - is meant to be
+					// unreachable in conforming code: only the path condition is covered then)
+					if id, ok := ce.Fun.(*ast.Ident); ok && id.Name == "implies" && len(ce.Args) == 2 && !containsIdent(e.Text, "marked") {
 						if a, err := env.trans(ce.Args[0]); err == nil {
 							o.Ante = &a.t
 						}
@@ -1055,7 +1058,7 @@ func (ex *Exec) frameObligations(f *frame, c *Contract) {
 	}
 	n0 := ex.sc.declare("pre:"+compAlloc, SInt)
 	for _, k := range sortedKeys(f.exit.heap) {
-		if k == compAlloc || k == "G:clock" || strings.HasPrefix(k, "LK:") || (strings.HasPrefix(k, "LA:") || strings.HasPrefix(k, "LH:")) || allowedWhole[k] {
+		if k == compAlloc || k == "G:clock" || strings.HasPrefix(k, "LK:") || (strings.HasPrefix(k, "LA:") || strings.HasPrefix(k, "LH:")) || strings.HasPrefix(k, "S:") || allowedWhole[k] {
 			continue
 		}
 		sort := ex.compSorts(k)
@@ -1517,9 +1520,18 @@ func (V *Verifier) addrComp(addr ssa.Value, d map[string]bool) {
 // loopMods: components written inside a loop body (for havoc at the header).
 func (V *Verifier) loopMods(fn *ssa.Function, li *loopInfo) []string {
 	d := map[string]bool{}
+	ct := V.contracts[funcName(fn)]
 	for b := range li.body {
 		for _, ins := range b.Instrs {
 			V.staticWrites(ins, d)
+			if ct != nil {
+				// a mark whose site lies in the loop is set by the loop
+				for _, sa := range ct.Sites {
+					if sa.Mark && V.siteMatches(sa, ins) {
+						d[markComp(fn, sa.Label)] = true
+					}
+				}
+			}
 			if _, ok := ins.(*ssa.Alloc); ok {
 				d[compAlloc] = true
 			}
@@ -1592,7 +1604,7 @@ func (V *Verifier) contractComps(ct *Contract) (comps map[string]bool, star bool
 		case strings.HasPrefix(it, "allbut("):
 			pfx := strings.Split(strings.TrimSuffix(strings.TrimPrefix(it, "allbut("), ")"), "|")
 			for c := range V.compSorts {
-				if c == compAlloc || strings.HasPrefix(c, "LK:") || (strings.HasPrefix(c, "LA:") || strings.HasPrefix(c, "LH:")) || strings.HasPrefix(c, "G:") {
+				if c == compAlloc || strings.HasPrefix(c, "LK:") || (strings.HasPrefix(c, "LA:") || strings.HasPrefix(c, "LH:")) || strings.HasPrefix(c, "G:") || strings.HasPrefix(c, "S:") {
 					continue
 				}
 				skip := false
@@ -1794,7 +1806,7 @@ func (V *Verifier) expandMods(d map[string]bool) []string {
 	}
 	if star {
 		for c := range V.compSorts {
-			if c == compAlloc || strings.HasPrefix(c, "LK:") || (strings.HasPrefix(c, "LA:") || strings.HasPrefix(c, "LH:")) || strings.HasPrefix(c, "G:") {
+			if c == compAlloc || strings.HasPrefix(c, "LK:") || (strings.HasPrefix(c, "LA:") || strings.HasPrefix(c, "LH:")) || strings.HasPrefix(c, "G:") || strings.HasPrefix(c, "S:") {
 				continue
 			}
 			if !out[c] {
